@@ -1,16 +1,41 @@
 package ergo
 
-func zzDbg1() {
-	g := &Graph{}
-	zzHavoc("g", g, "2;Results=0;Deps=2;RDeps=0;Meta=0;Tombstones=0")
-	n := 0
-	for _, t := range g.Tasks {
-		for dep := range g.Deps[t.ID] {
-			if g.Tasks[dep] != nil {
-				n++
+func zzDbgMirror() {
+	g, _ := zzC07Store("2;Results=0;RDeps=0;Tombstones=0;constkeys=Tasks,Meta,Deps")
+	root := zzWorldInit(g)
+	opts := GlobalOptions{StartDir: root}
+	dir, derr := ergoDir(opts)
+	zzAssume(derr == nil)
+	err := writeLinkEvent(dir, opts, "link", zzString("from"), zzString("to"))
+	g2, perr := zzPost()
+	if err != nil || perr != nil {
+		return
+	}
+	for id, t := range g2.Tasks {
+		for _, d := range t.Deps {
+			zzAssert(zzEdge(g2, id, d), "dbg1: every listed dep is an edge")
+			o := g2.Tasks[d]
+			if o != nil {
+				found := false
+				for _, r := range o.RDeps {
+					if r == id {
+						found = true
+					}
+				}
+				zzAssert(found, "dbg2: dep's rdeps contain me")
 			}
 		}
+		for _, r := range t.RDeps {
+			zzAssert(zzEdge(g2, r, id), "dbg3: every listed rdep is an edge")
+		}
+		for d := range g2.Deps[id] {
+			found := false
+			for _, x := range t.Deps {
+				if x == d {
+					found = true
+				}
+			}
+			zzAssert(found, "dbg4: every edge is listed in deps")
+		}
 	}
-	zzAssert(n <= 4, "n<=4")
-	zzAssert(n <= 3, "n<=3 (should fail)")
 }
